@@ -178,6 +178,94 @@ Example roundtrip_demo :
   end.
 Proof. vm_compute. reflexivity. Qed.
 
+(* ---- the whole Turbomole file: $basis section + $ecp section (Model/TurbomoleEcp.v).  The file states lmax as a number, so gaps
+   in the ECP momenta survive (unlike NWChem / Gaussian94); two conditions exclude VALID data and are findings, proved as
+   theorems about the model and reproduced on the code: an ECP momentum >= 7 cannot be read back (the writer's letters follow
+   the hij convention, the reader's the hik convention), and a basis without electron shells (ECP only: def2-ECP, ...) is written
+   with an empty $basis section that the reader refuses - for EVERY such input (tmecp_ecp_only). ---- *)
+From BSE Require Import Model.TurbomoleEcp Proofs.TurbomoleEcpDefs.
+From BSE Require Proofs.TurbomoleEcpSpec.
+
+Theorem turbomole_whole_file_write_total : tmecp_write_total_stmt.
+Proof. exact TurbomoleEcpSpec.tmecp_write_total. Qed.
+Print Assumptions turbomole_whole_file_write_total.
+
+Theorem turbomole_whole_file_roundtrip : tmecp_roundtrip_stmt.
+Proof. exact TurbomoleEcpSpec.tmecp_roundtrip_exact. Qed.
+Print Assumptions turbomole_whole_file_roundtrip.
+
+Theorem turbomole_whole_file_no_number_lost : tmecp_no_number_lost_stmt.
+Proof. exact TurbomoleEcpSpec.tmecp_no_number_lost. Qed.
+Print Assumptions turbomole_whole_file_no_number_lost.
+
+Theorem turbomole_ecp_momentum_range : tmecp_hij_range_stmt.
+Proof. exact TurbomoleEcpSpec.tmecp_hij_range. Qed.
+Print Assumptions turbomole_ecp_momentum_range.
+
+Theorem turbomole_ecp_only_unreadable : tmecp_ecp_only_stmt.
+Proof. exact TurbomoleEcpSpec.tmecp_ecp_only. Qed.
+Print Assumptions turbomole_ecp_only_unreadable.
+
+Theorem turbomole_ecp_gaps_survive : tmecp_gap_ok_stmt.
+Proof. exact TurbomoleEcpSpec.tmecp_gap_ok. Qed.
+Print Assumptions turbomole_ecp_gaps_survive.
+
+Example turbomole_ecp_example : tmecp_example_stmt.
+Proof. exact TurbomoleEcpSpec.tmecp_example. Qed.
+
+(* ---- GAMESS-US (Model/GamessUs.v, Model/GamessUsEcp.v).  The electron part round-trips exactly for momenta 0..6
+   (gus_roundtrip); what comes back for ANY well-formed input is gus_back (gus_roundtrip_letters): the shells up to the first
+   whose letter the reader does not know - the recorded known findings "shells with l >= 7 dropped / altered" as a theorem, with
+   the exact letter table.  The whole-file round trip (with ECPs) is proved on a store instance only (gus_ecp_example). ---- *)
+From BSE Require Import Model.GamessUs Proofs.GamessUsDefs Model.GamessUsEcp Proofs.GamessUsEcpDefs.
+From BSE Require Proofs.GamessUsSpec Proofs.GamessUsEcpSpec.
+
+Theorem gamess_us_write_total : gus_write_total_stmt.
+Proof. exact GamessUsSpec.gus_write_total. Qed.
+Print Assumptions gamess_us_write_total.
+
+Theorem gamess_us_roundtrip : gus_roundtrip_stmt.
+Proof. exact GamessUsSpec.gus_roundtrip_exact. Qed.
+Print Assumptions gamess_us_roundtrip.
+
+Theorem gamess_us_what_comes_back : gus_roundtrip_letters_stmt.
+Proof. exact GamessUsSpec.gus_roundtrip_letters. Qed.
+Print Assumptions gamess_us_what_comes_back.
+
+Theorem gamess_us_letter_table : gus_letter_table_stmt.
+Proof. exact GamessUsSpec.gus_letter_table. Qed.
+Print Assumptions gamess_us_letter_table.
+
+Theorem gamess_us_exact_momentum_range : gus_letter_exact_stmt.
+Proof. exact GamessUsSpec.gus_letter_exact. Qed.
+Print Assumptions gamess_us_exact_momentum_range.
+
+Theorem gamess_us_no_number_lost : gus_no_number_lost_stmt.
+Proof. exact GamessUsSpec.gus_no_number_lost. Qed.
+Print Assumptions gamess_us_no_number_lost.
+
+Theorem gamess_us_high_momenta_refuted : gus_roundtrip_high_stmt.
+Proof. exact GamessUsSpec.gus_roundtrip_high. Qed.
+Print Assumptions gamess_us_high_momenta_refuted.
+
+Theorem gamess_us_fused_sp_unreadable : gus_roundtrip_sp_stmt.
+Proof. exact GamessUsSpec.gus_roundtrip_sp. Qed.
+Print Assumptions gamess_us_fused_sp_unreadable.
+
+Theorem gamess_us_ecp_only_unreadable : gus_ecp_only_stmt.
+Proof. exact GamessUsEcpSpec.gus_ecp_only. Qed.
+Print Assumptions gamess_us_ecp_only_unreadable.
+
+Theorem gamess_us_ecp_zero_terms_dropped : gus_ecp_zero_stmt.
+Proof. exact GamessUsEcpSpec.gus_ecp_zero. Qed.
+Print Assumptions gamess_us_ecp_zero_terms_dropped.
+
+Example gamess_us_example : gus_example_stmt.
+Proof. exact GamessUsSpec.gus_example. Qed.
+
+Example gamess_us_ecp_example : gus_ecp_example_stmt.
+Proof. exact GamessUsEcpSpec.gus_ecp_example. Qed.
+
 (* ---- the whole Gaussian94 file: electron blocks + ECP blocks (Model/G94Ecp.v).  The reader takes the momenta of the potentials
    from the `-ECP lmax nelec` line and the ORDER of the blocks, never from their titles: the round trip holds exactly when the
    momenta are [L, 0, ..., L-1] for L+1 potentials.  (Imported last: the record G94Ecp.gpot shares its field names with
